@@ -6,10 +6,14 @@ package main
 
 import (
 	"bytes"
+	"context"
 	"fmt"
+	"strings"
 
 	pipeline "github.com/buildkite/go-pipeline"
 	"github.com/buildkite/go-pipeline/ordered"
+
+	"github.com/buildkite/go-pipeline/signature"
 
 	"verifharness/core"
 	"verifharness/dump"
@@ -119,6 +123,28 @@ func runC14(c *ctx) error {
 				c.res.Fail(core.OracleFailure{What: "payload changed under " + what, Input: desc, Got: firstDiff(pl, payload0)})
 			}
 			c.res.Hist("collide." + what)
+		}
+		if iter%3 == 0 && !hasUnknownStep(p.Steps) {
+			// the same step signed where it stands — through SignSteps over the whole list, inside whatever groups
+			// it is nested in — has the same payload as signed on its own
+			if fp, _ := pipeline.Parse(bytes.NewReader(src)); fp != nil && len(commandStepsOf(fp.Steps)) == len(cmds) {
+				lg := &captureLogger{}
+				err := signature.SignSteps(context.Background(), fp.Steps, k.signer, repo, signature.WithEnv(copyEnv(penv)), signature.WithLogger(lg), signature.WithDebugSigning(true))
+				if inPlace := commandStepsOf(fp.Steps)[idx].Signature; err == nil && inPlace != nil {
+					c.res.OracleChecks++
+					if got, want := strings.Join(inPlace.SignedFields, ","), strings.Join(sig.SignedFields, ","); got != want {
+						c.res.Fail(core.OracleFailure{What: "the step signed in place through SignSteps covers a different field list than signed on its own (same env, repository, key)", Input: desc, Got: got, Want: want})
+					}
+				}
+				if err == nil && len(lg.all) == len(cmds) {
+					c.res.OracleChecks++
+					c.res.Hist("collide.signed in place through SignSteps")
+					// (the pipeline env was drawn for this step; other steps may shadow other names, this one's payload must agree)
+					if lg.all[idx] != payload0 {
+						c.res.Fail(core.OracleFailure{What: "payload changed under signing the step in place through SignSteps", Input: desc, Got: firstDiff(lg.all[idx], payload0)})
+					}
+				}
+			}
 		}
 		if s2 := ss.fresh(); s2 != nil {
 			// repeated run, fresh parse (different map insertion/iteration history)
@@ -267,6 +293,38 @@ func runC14(c *ctx) error {
 			if s2 := ss.fresh(); s2 != nil && s2.Matrix != nil {
 				s2.Matrix.Adjustments = append(s2.Matrix.Adjustments, &pipeline.MatrixAdjustment{With: pipeline.MatrixAdjustmentWith{"": "zz"}, Skip: true})
 				differ("matrix gains an adjustment", s2, repo, copyEnv(penv))
+			}
+			// unknown keys spelled like the typed fields (API-built, or a key interpolated onto the name) never stand in
+			// for the typed field: two steps that differ in the real setup / skip still differ with the decoys present
+			{
+				sa, sb := ss.fresh(), ss.fresh()
+				if sa != nil && sb != nil && sa.Matrix != nil && sb.Matrix != nil && len(sa.Matrix.Setup) > 0 {
+					for _, x := range []*pipeline.CommandStep{sa, sb} {
+						if x.Matrix.RemainingFields == nil {
+							x.Matrix.RemainingFields = map[string]any{}
+						}
+						x.Matrix.RemainingFields["setup"] = []any{"decoy"}
+						x.Matrix.RemainingFields["adjustments"] = "decoy"
+						for _, a := range x.Matrix.Adjustments {
+							if a != nil {
+								if a.RemainingFields == nil {
+									a.RemainingFields = map[string]any{}
+								}
+								a.RemainingFields["skip"] = "decoy"
+								a.RemainingFields["with"] = "decoy"
+							}
+						}
+					}
+					for _, d := range sortedKeysS(sb.Matrix.Setup) {
+						sb.Matrix.Setup[d] = append(sb.Matrix.Setup[d], "zz-extra-value")
+						break
+					}
+					c.res.OracleChecks++
+					if pa, pb := sign(sa, repo, copyEnv(penv)), sign(sb, repo, copyEnv(penv)); pa == pb && !strings.HasPrefix(pa, "<error") {
+						c.res.Fail(core.OracleFailure{What: "two steps that differ in a matrix dimension's values have the same payload when both carry unknown keys named like the typed fields", Input: desc, Got: pa})
+					}
+					c.res.Hist("differ.typed-field-behind-decoy-keys")
+				}
 			}
 		}
 		if len(st.Plugins) >= 1 {
